@@ -81,14 +81,20 @@ def run(ctx, res):
     res.sample({"dispatch_cases": len(cases), "example": {"regime": 5, "phase": 0, "fabric": 0, "impl": _err_kind(oi[0])}})
 
     # ---------------- (b) null updates on the real update_orientations
-    n_sc = 10 if not ctx["thorough"] else 80
+    n_sc = 12 if not ctx["thorough"] else 84
     for k in range(n_sc):
-        mode = ["regime0", "regime7", "zeroL", "M0"][k % 4]
+        mode = ["regime0", "regime7", "zeroL", "M0", "regime0_via_callable", "regime7_via_callable"][k % 6]
         sc = solver.make_scenario(rng, k, nmax=12 if not ctx["thorough"] else 48, regimes=(4, 6))
         if mode == "regime0":
             sc["regime"] = 0
         elif mode == "regime7":
             sc["regime"] = 7
+        elif mode in ("regime0_via_callable", "regime7_via_callable"):
+            # the null regime is declared by the get_regime callable while the mineral itself was built for dislocation creep
+            r_ = core.DeformationRegime(0 if mode.startswith("regime0") else 7)
+            gr = lambda t, x, r_=r_: r_  # noqa: E731
+            gr.desc = f"constant {r_!r}"
+            sc["get_regime"] = gr
         elif mode == "zeroL":
             sc["field"] = solver.make_field(rng, "zero")
         else:
@@ -103,6 +109,8 @@ def run(ctx, res):
         rep = solver.scenario_json(sc)
         rep["mode"] = mode
         A0, f0 = m.orientations[0], m.fractions[0]
+        if len(m.fractions) != sc["n_updates"] + 1 or len(m.orientations) != sc["n_updates"] + 1:
+            res.violation(f"null:{mode}:snapshot_count", f"{sc['n_updates']} null updates left {len(m.fractions)} snapshots", rep)
         for s in range(1, len(m.fractions)):
             if mode != "M0":
                 if np.abs(m.orientations[s] - A0).max() > 1e-12:
@@ -127,9 +135,10 @@ def run(ctx, res):
                         "max|df|": float(np.abs(m.fractions[-1] - f0).max()), "F_relerr": float(relerr)})
 
     # ---------------- (c) failed updates leave the stored history untouched
-    n_f = 9 if not ctx["thorough"] else 45
+    n_f = 16 if not ctx["thorough"] else 48
     for k in range(n_f):
-        mode = ["unsupported_regime", "switch_midway", "L_raises", "bad_regime_ordinal", "position_raises", "mismatched_fabric"][k % 6]
+        mode = ["unsupported_regime", "switch_midway", "L_raises", "bad_regime_ordinal", "position_raises", "mismatched_fabric",
+                "null_mineral_unsupported_callable", "null_mineral_bad_ordinal_callable"][k % 8]
         sc = solver.make_scenario(rng, k, nmax=10)
         sc["n_updates"] = 1
         m = solver.build_mineral(sc)
@@ -162,6 +171,11 @@ def run(ctx, res):
             m.regime = int(rng.choice([-1, 8, 255]))
         elif mode == "switch_midway":
             get_regime = lambda t, x: core.DeformationRegime.matrix_dislocation if t < 0.35 else core.DeformationRegime.sliding_dislocation  # noqa: E731
+        elif mode in ("null_mineral_unsupported_callable", "null_mineral_bad_ordinal_callable"):
+            # the mineral currently sits in a viscosity-bound regime; the callable then declares a rejected regime
+            m.regime = core.DeformationRegime(int(rng.choice([0, 7])))
+            bad = int(rng.choice([2, 3, 5])) if mode.startswith("null_mineral_unsupported") else int(rng.choice([-1, 8, 255]))
+            get_regime = lambda t, x, bad=bad: bad  # noqa: E731
         elif mode == "L_raises":
             getL = Lraise
         elif mode == "position_raises":
